@@ -87,6 +87,10 @@ def build_unit(tmpl_path, repo_root, canary=False, verif_root=None):
                 default_tags = tuple(m.group(2).split())
                 i += 1
                 continue
+            if m and m.group(1) == "rest":
+                emit_rest(m.group(2).strip(), rel_t, ln)
+                i += 1
+                continue
             if m and m.group(1) in ("item", "open", "type"):
                 # collect block
                 kind = m.group(1)
@@ -109,6 +113,23 @@ def build_unit(tmpl_path, repo_root, canary=False, verif_root=None):
             gen.emit(line, [LineInfo("tmpl", tmpl_file=rel_t, tmpl_line=ln, tags=tags)])
             i += 1
 
+    emitted = {}   # repo file -> set of top-level item start offsets already emitted
+
+    def emit_rest(spec, rel_t, ln):
+        """`#rest <file>`: every top-level const / static / fn / macro-free helper of <file> that no #item extracted.
+        Helpers added to the file later are picked up here, without contract (callers then see no postcondition)."""
+        src = source(spec)
+        done = emitted.get(spec, set())
+        for it in src.top_items():
+            if it.kind not in ("const", "static", "fn"):
+                continue
+            if it.start in done:
+                continue
+            if it.kind == "fn" and it.name in ("main",):
+                continue
+            block = [("#props *", ln)]
+            emit_item("item", f"{spec} | {it.kind} {it.name}", [], rel_t, ln)
+
     def emit_item(kind, spec, block, rel_t, start_line):
         try:
             file_rel, path = [s.strip() for s in spec.split("|", 1)]
@@ -124,6 +145,8 @@ def build_unit(tmpl_path, repo_root, canary=False, verif_root=None):
         except AnchorLost as e:
             raise ToolError(f"TOOL: {e}")
         name = path
+        if " / " not in path:
+            emitted.setdefault(file_rel, set()).add(it.start)
         # parse directives
         directives, props, rules, cur = [], (), [], None
         for (l, ln) in block:
